@@ -706,6 +706,12 @@ BUILTIN_SKIP = {'memcpy', 'memmove', 'memset', 'malloc', 'free', 'sqrt', 'fabs',
                 'pow', 'exp', 'log', 'tan', 'asin', 'atan', 'fmin', 'fmax', 'round', 'trunc', '__gxx_personality_v0', 'strcmp', 'nanosleep', '__errno_location'}
 
 PRELUDE = r'''
+#if defined(__CPROVER__) && defined(VT_BOUNDED_MEMMOVE)
+/* Query option: memmove of a few 32-bit words by an explicit bounded loop (vt/stubs/base.c); CBMC's array model of a
+ * symbolic-size memmove (std::sort's insertion step) does not finish */
+void *vt_bounded_memmove(void *, const void *, unsigned long);
+# define memmove vt_bounded_memmove
+#endif
 #if defined(__CPROVER__)
 # if defined(VT_WITNESS)
 #  define VT_ASSERT(c, m) ((void)0)
